@@ -558,10 +558,17 @@ func c17Generated(c *Ctx) {
 	if c.Thorough() {
 		n = 3000
 	}
-	names := []string{"alice", "bob", "carol", "admin", "root", "staff"}
+	plainNames := []string{"alice", "bob", "carol", "admin", "root", "staff"}
+	// every fourth case: names whose concatenations coincide ("a"+"bc" = "ab"+"c"): what Enforce remembers about
+	// one pair of names must not answer for another, in whatever order the requests come
+	concatNames := []string{"a", "ab", "abc", "bc", "c", "b"}
 	objs := []string{"data1", "data2", "/data/*"}
 	acts := []string{"read", "write"}
 	for i := 0; i < n; i++ {
+		names := plainNames
+		if i%4 == 3 {
+			names = concatNames
+		}
 		gdom := rng.Intn(4) == 0
 		positive := rng.Intn(5) != 0
 		var mx *Ex
@@ -709,6 +716,43 @@ func proto17Bool(b bool) string {
 
 // a domain matching function with a user who has several roles in a pattern domain: the managers of
 // concrete domains are derived from the pattern domains, in whatever order the rules arrive
+// c17ConcatNames: names whose concatenations coincide, every set of <= 2 of four links, the requests asked in
+// one order, then (after an unrelated link was added, which starts a new memo) in the reverse order: every
+// decision is compared with the model and the two passes with each other
+func c17ConcatNames(c *Ctx) {
+	ms := rbacSpec(false, false)
+	cand := [][]string{{"a", "bc"}, {"ab", "c"}, {"a", "b"}, {"b", "c"}}
+	rules := [][]string{{"bc", "data1", "read"}, {"c", "data2", "read"}, {"b", "data1", "write"}}
+	var reqs [][]V
+	for _, u := range []string{"a", "ab", "b", "bc", "c"} {
+		for _, oa := range [][2]string{{"data1", "read"}, {"data2", "read"}, {"data1", "write"}} {
+			reqs = append(reqs, []V{VS(u), VS(oa[0]), VS(oa[1])})
+		}
+	}
+	for _, idx := range subsetsUpTo(len(cand), 2) {
+		s := StartCase(c, ms, CaseOpts{})
+		if s == nil {
+			continue
+		}
+		s.Do(c, EOp{Kind: "adds", Sec: "p", PType: "p", Ex: true, Rules: rules})
+		if links := pick(cand, idx); len(links) > 0 {
+			s.Do(c, EOp{Kind: "adds", Sec: "g", PType: "g", Ex: true, Rules: links})
+		}
+		fwd := make([]string, len(reqs))
+		for k, q := range reqs {
+			fwd[k] = s.Do(c, EOp{Kind: "enf", Req: q})
+		}
+		s.Do(c, EOp{Kind: "add", Sec: "g", PType: "g", Rule: []string{"x", "y"}})
+		for k := len(reqs) - 1; k >= 0; k-- {
+			if back := s.Do(c, EOp{Kind: "enf", Req: reqs[k]}); back != fwd[k] {
+				c.Direct("adding an unrelated role link (and asking the requests in another order) changed a decision", fmt.Sprintf("links=%v request=%v first=%s then=%s", pick(cand, idx), reqs[k], fwd[k], back))
+			}
+		}
+		c.Evals++
+		c.Count("concat_name_cases", 1)
+	}
+}
+
 func c17DomainPatternOrders(c *Ctx) {
 	mpath := "/repo/examples/rbac_with_domain_pattern_model.conf"
 	rules := [][]string{
@@ -777,6 +821,31 @@ func c17DomainPatternOrders(c *Ctx) {
 			}
 		}
 		c.Nontrivial(fmt.Sprintf("dompat %v %v", perm, viaAPI))
+		// adding a rule and removing it again leaves every decision unchanged: a link of a subject that has no
+		// other link, in a pattern domain, in a concrete domain with rules of its own and in one without (for
+		// such a subject the removal reaches no link another listed rule stands for, cf. finding D15)
+		reqsC := append([][]interface{}(nil), reqs...)
+		for _, dm := range []string{"domain1", "domain2", "domain3"} {
+			for _, oa := range [][2]string{{"data1", "read"}, {"data1", "write"}, {"data2", "read"}} {
+				reqsC = append(reqsC, []interface{}{"carol", dm, oa[0], oa[1]})
+			}
+		}
+		before := c17Decisions(e, reqsC)
+		for _, l := range [][]string{{"carol", "reader", "*"}, {"carol", "writer", "domain2"}, {"carol", "reader", "domain3"}} {
+			if ok, _ := e.AddGroupingPolicy(l); !ok {
+				continue
+			}
+			during := c17Decisions(e, reqsC)
+			_, _ = e.RemoveGroupingPolicy(l)
+			after := c17Decisions(e, reqsC)
+			for k := range after {
+				if before[k] >= 0 && after[k] >= 0 && before[k] != after[k] {
+					c.Direct("adding a role link and removing it again changed a decision (domain matching function)", fmt.Sprintf("rules in order %v (api=%v), link %v added and removed: request=%v before=%d with the link=%d after=%d", perm, viaAPI, l, reqsC[k], before[k], during[k], after[k]))
+					return
+				}
+			}
+			c.Count("domain_pattern_add_remove_checks", 1)
+		}
 	}
 }
 
@@ -784,5 +853,6 @@ func runC17(c *Ctx) {
 	c.Rule = "metamorphic relations on the real enforcer for 31 shipped examples/ model+policy pairs (regex/glob/ip/keyMatch mixtures, pattern role managers, eval, ABAC; set up as their tests do) x seeded random transformations (reload from a file listing the same rules in another order, the same rules added in another order through the API, move a rule to the end, add a listed rule, add and remove a fresh rule or link, remove and re-add a listed rule or link, remove all role links of a subject and add them back) x requests drawn from the values occurring in the policy: every error-free decision must be unchanged (non-priority effects), no allowed request denied after an addition / no denied request granted after a removal (allow-override, matcher without negation), no grant after an addition under deny-override; a domain-pattern model whose user has several roles in a pattern domain, the same 7 rules loaded / added in seeded random orders; plus generated models with random positive matchers (and a negated role test for contrast) over g, keyMatch, comparisons: every call and decision compared with the Lean model, the same relations checked along random add/remove runs; non-trivial = a transformation that permuted rules or changed some decision; distinct = (pair, transformation)"
 	c17Examples(c)
 	c17DomainPatternOrders(c)
+	c17ConcatNames(c)
 	c17Generated(c)
 }
